@@ -11,6 +11,7 @@ import (
 	"testing"
 	"time"
 
+	remoteexecution "github.com/bazelbuild/remote-apis/build/bazel/remote/execution/v2"
 	"github.com/buildbarn/bb-storage/pkg/blobstore"
 	"github.com/buildbarn/bb-storage/pkg/blobstore/buffer"
 	"github.com/buildbarn/bb-storage/pkg/blobstore/readcaching"
@@ -20,6 +21,8 @@ import (
 	"github.com/buildbarn/bb-storage/pkg/eviction"
 	"google.golang.org/grpc/codes"
 	"google.golang.org/grpc/status"
+	"google.golang.org/protobuf/encoding/prototext"
+	"google.golang.org/protobuf/proto"
 	"pgregory.net/rapid"
 
 	"verif/harness/backends"
@@ -43,6 +46,46 @@ type object struct {
 	inst string
 	data []byte
 	d    digest.Digest
+	// msg != nil: data is the serialization of this message (a Directory,
+	// Action or ActionResult stored as a CAS blob), so that a read of the
+	// object can be consumed with Buffer.ToProto.
+	msg proto.Message
+}
+
+// protoObject returns the i-th message of ln "units" and its
+// serialization. The messages of different pool indices differ.
+func protoObject(i, ln int) (proto.Message, []byte) {
+	name := fmt.Sprintf("o%d-%s", i, strings.Repeat("n", ln))
+	var m proto.Message
+	switch i % 3 {
+	case 0:
+		m = &remoteexecution.Directory{Files: []*remoteexecution.FileNode{{Name: name, IsExecutable: ln%2 == 1}}}
+	case 1:
+		m = &remoteexecution.Action{DoNotCache: true, Salt: []byte(name)}
+	default:
+		m = &remoteexecution.ActionResult{ExitCode: int32(ln + 1), StdoutRaw: []byte(name)}
+	}
+	data, err := proto.MarshalOptions{Deterministic: true}.Marshal(m)
+	if err != nil {
+		panic(err)
+	}
+	return m, data
+}
+
+// genPoolRT is genPool for the read-through unit: some objects are
+// serialized messages.
+func genPoolRT(t *rapid.T, max int) []object {
+	pool := genPool(t, max)
+	for i := range pool {
+		if len(pool[i].data) == 0 {
+			// the empty blob is the serialization of a message without fields
+			pool[i].msg = &remoteexecution.Directory{}
+		} else if rapid.IntRange(0, 2).Draw(t, fmt.Sprintf("obj%d/proto", i)) == 0 {
+			pool[i].msg, pool[i].data = protoObject(i, len(pool[i].data))
+			pool[i].d = hx.Sha(pool[i].inst, pool[i].data)
+		}
+	}
+	return pool
 }
 
 var lengths = []int{0, 1, 2, 5, 9, 31}
@@ -150,7 +193,65 @@ func (s rangeSlicer) Slice(b buffer.Buffer, child digest.Digest) (buffer.Buffer,
 	return buffer.NewCASBufferFromByteSlice(child, data[s.off:s.off+s.ln], buffer.BackendProvided(buffer.Irreparable(child))), nil
 }
 
-func consume(b buffer.Buffer, method, chunk int) ([]byte, error) {
+// readArgs are the additional arguments of the consumption methods ToProto
+// and ReadAt.
+type readArgs struct {
+	msg     proto.Message // ToProto: the message the object is the serialization of
+	full    []byte        // the complete contents the read is expected to have
+	off, ln int           // partial ReadAt: range (may extend past the end)
+}
+
+// wanted is what a successful consumption with that method returns.
+func (a readArgs) wanted(method int) []byte {
+	if method != methodReadAtPartial {
+		return a.full
+	}
+	end := a.off + a.ln
+	if end > len(a.full) {
+		end = len(a.full)
+	}
+	return a.full[a.off:end]
+}
+
+const (
+	methodIntoWriter    = 2
+	methodToProto       = 3
+	methodReadAtFull    = 4
+	methodReadAtPartial = 5
+)
+
+// methodChoices: the distribution consumption methods are drawn from.
+var methodChoices = []int{0, 1, methodIntoWriter, methodToProto, methodToProto, methodReadAtFull, methodReadAtPartial}
+
+// consume reads a buffer with the given method: to the end, except for
+// the partial ReadAt.
+func consume(b buffer.Buffer, method, chunk int, a readArgs) ([]byte, error) {
+	switch method {
+	case methodToProto:
+		m, err := b.ToProto(a.msg.ProtoReflect().New().Interface(), 1<<20)
+		if err != nil {
+			return nil, err
+		}
+		if m == nil {
+			return []byte("ToProto returned a nil message and no error"), nil
+		}
+		if !proto.Equal(m, a.msg) {
+			return []byte("ToProto returned " + prototext.MarshalOptions{}.Format(m)), nil
+		}
+		return a.full, nil
+	case methodReadAtFull, methodReadAtPartial:
+		// Full range: a slice of exactly the object's size, or one byte
+		// more (the read then runs into the end of the object).
+		off, p := 0, make([]byte, len(a.full)+chunk%2)
+		if method == methodReadAtPartial {
+			off, p = a.off, make([]byte, a.ln)
+		}
+		n, err := b.ReadAt(p, int64(off))
+		if err != nil && err != io.EOF {
+			return nil, err
+		}
+		return p[:n], nil
+	}
 	switch method {
 	case 0:
 		return b.ToByteSlice(1 << 20)
@@ -187,7 +288,13 @@ func consume(b buffer.Buffer, method, chunk int) ([]byte, error) {
 	}
 }
 
-var methodNames = []string{"ToByteSlice", "ToReader", "IntoWriter"}
+var methodNames = []string{"ToByteSlice", "ToReader", "IntoWriter", "ToProto", "ReadAt(all)", "ReadAt(part)"}
+
+// opDeadline bounds one operation on the composite (wall clock). The model
+// back ends never block, so an operation that is still running after this
+// long is blocked inside the code under test (e.g. waiting for a replication
+// slot that an earlier, failed replication never gave back).
+const opDeadline = 20 * time.Second
 
 type backend struct {
 	label  string
@@ -299,7 +406,7 @@ func TestC17ReadThrough(t *testing.T) {
 			kf = digest.KeyWithInstance
 		}
 		cfg := genRepl(t, "repl", 2, true)
-		pool := genPool(t, 4)
+		pool := genPoolRT(t, 4)
 		log := &backends.Log{}
 		names := [2]string{"primary", "secondary"}
 		if caching {
@@ -376,26 +483,53 @@ func TestC17ReadThrough(t *testing.T) {
 			kind := rapid.SampledFrom([]string{"Get", "Get", "GetFromComposite", "Put", "FindMissing"}).Draw(t, "op")
 			before := snapshot()
 			m := takeMark(log, be)
+			// Every operation runs under a generous deadline; the model
+			// back ends answer immediately, so a deadline that expires
+			// means the operation was blocked in the code under test (an
+			// object that a back end holds is then not returned).
+			opCtx, opCancel := context.WithTimeout(ctx, opDeadline)
+			notBlocked := func(what string, err error) {
+				if opCtx.Err() != nil {
+					t.Fatalf("%s was still running after %v although no back-end call was pending (it returned %v once its context expired): the operation blocks, e.g. on a replication slot that an earlier (failed) replication did not give back", what, opDeadline, err)
+				}
+			}
 			switch kind {
 			case "Get", "GetFromComposite":
 				j := rapid.IntRange(0, len(pool)-1).Draw(t, "obj")
 				obj := pool[j]
-				method := rapid.IntRange(0, 2).Draw(t, "method")
+				method := rapid.SampledFrom(methodChoices).Draw(t, "method")
 				chunk := rapid.IntRange(1, 9).Draw(t, "readchunk")
 				want := obj.data
-				c.Add(kind, j, method, chunk)
+				off, ln := 0, len(obj.data)
+				if kind == "GetFromComposite" {
+					off = rapid.IntRange(0, len(obj.data)).Draw(t, "sliceoff")
+					ln = rapid.IntRange(0, len(obj.data)-off).Draw(t, "slicelen")
+					want = obj.data[off : off+ln]
+				}
+				// ToProto only on complete objects that are serialized
+				// messages (anything else fails to unmarshal, which is no
+				// statement about the back ends).
+				if method == methodToProto && (kind != "Get" || obj.msg == nil) {
+					method = 0
+				}
+				ra := readArgs{msg: obj.msg, full: want}
+				if method == methodReadAtPartial {
+					ra.off = rapid.IntRange(0, len(want)).Draw(t, "readat_off")
+					ra.ln = rapid.IntRange(0, len(want)-ra.off+2).Draw(t, "readat_len")
+				}
+				partial := method == methodReadAtPartial
+				c.Add(kind, j, method, chunk, off, ln, ra.off, ra.ln)
+				c.Class("consume_" + methodNames[method])
+				want = ra.wanted(method)
 				var b buffer.Buffer
 				if kind == "Get" {
-					b = ba.Get(ctx, obj.d)
+					b = ba.Get(opCtx, obj.d)
 				} else {
-					off := rapid.IntRange(0, len(obj.data)).Draw(t, "sliceoff")
-					ln := rapid.IntRange(0, len(obj.data)-off).Draw(t, "slicelen")
-					c.Add(off, ln)
-					want = obj.data[off : off+ln]
-					b = ba.GetFromComposite(ctx, obj.d, hx.Sha(obj.inst, want), rangeSlicer{off, ln})
+					b = ba.GetFromComposite(opCtx, obj.d, hx.Sha(obj.inst, ra.full), rangeSlicer{off, ln})
 				}
-				got, err := consume(b, method, chunk)
+				got, err := consume(b, method, chunk, ra)
 				o := observe(log, be, m)
+				notBlocked(fmt.Sprintf("%s(object %d, %s) with replicator %s", kind, j, methodNames[method], cfg), err)
 				what := fmt.Sprintf("%s(object %d, %s) held before by %s=%v %s=%v -> %d bytes, %v; %s; replicator %s",
 					kind, j, methodNames[method], names[0], before[j][0], names[1], before[j][1], len(got), err, o, cfg)
 				// The property fixes WHAT a read returns (the object iff one of
@@ -419,8 +553,15 @@ func TestC17ReadThrough(t *testing.T) {
 					c.ClassIf(before[j][0] && o.contacted[1], "get_second_consulted_although_first_holds")
 					// read-through: the object came from the slow/secondary
 					// back end (the fast/primary one did not hold it)
+					// (not demanded of a partial ReadAt: the Buffer
+					// documentation ties the attached copy to the buffer
+					// "being read", which a partial read does only in part;
+					// today it waits for the copy like every other method)
 					if !before[j][0] && copies && !has(0, obj) {
-						t.Fatalf("%s: successful read-through with a copying replicator, but %s still lacks the object", what, names[0])
+						if !partial {
+							t.Fatalf("%s: successful read-through with a copying replicator, but %s still lacks the object", what, names[0])
+						}
+						c.Class("partial_readat_ok_without_copy")
 					}
 				case !o.any():
 					// no back end failed during this read: the answer must be
@@ -458,8 +599,9 @@ func TestC17ReadThrough(t *testing.T) {
 					data = append(append([]byte(nil), data...), '!')
 				}
 				src := hx.NewCRC(data)
-				err := ba.Put(ctx, obj.d, buffer.NewCASBufferFromReader(obj.d, src, buffer.UserProvided))
+				err := ba.Put(opCtx, obj.d, buffer.NewCASBufferFromReader(obj.d, src, buffer.UserProvided))
 				o := observe(log, be, m)
+				notBlocked(fmt.Sprintf("Put(object %d) with replicator %s", j, cfg), err)
 				what := fmt.Sprintf("Put(object %d, wrong=%v) -> %v; %s", j, wrong, err, o)
 				if o.contacted[1-uploadTo] {
 					t.Fatalf("%s: the upload reached the %s back end; uploads must go to %s only", what, names[1-uploadTo], names[uploadTo])
@@ -500,8 +642,9 @@ func TestC17ReadThrough(t *testing.T) {
 					}
 				}
 				c.Add(kind, fmt.Sprint(members))
-				missing, err := ba.FindMissing(ctx, sb.Build())
+				missing, err := ba.FindMissing(opCtx, sb.Build())
 				o := observe(log, be, m)
+				notBlocked(fmt.Sprintf("FindMissing(%v) with replicator %s", members, cfg), err)
 				what := fmt.Sprintf("FindMissing(%v) -> %v, %v; %s; replicator %s", members, missing.Items(), err, o, cfg)
 				var got []string
 				for _, d := range missing.Items() {
@@ -564,6 +707,7 @@ func TestC17ReadThrough(t *testing.T) {
 				}
 				rendered = append(rendered, fmt.Sprintf("FindMissing(%v)->%d,%v", members, len(got), err))
 			}
+			opCancel()
 			checkContents(kind, before)
 		}
 		c.Sample(func() string {
